@@ -81,6 +81,13 @@ CHECKS["C09"] = ("TLC enumerates every payload over the token alphabet (line bre
                  "random unicode go through every text-accepting entry point of the real builder and TLC strips and compares the bytes.",
                  "5 C09", "Trusted: CommentSafety.tla's reading of how an interpreter removes comments; TLC.")
 
+CHECKS["C08"] = ("TLC checks the lexical clause and the exact fidelity clause (|w - x| <= 1/2 unit, on decimal digit sequences) on "
+                 "the rendering model FormatImpl for all enumerated mantissas x exponents x decimal places x sign; every model case "
+                 "and thousands of doubles (ties, carries, subnormals, 1e15, numpy scalars, ints, NaN/inf) go through every "
+                 "number-formatting builder command under several styles/line endings/relabelled axes, and TLC lexes the emitted "
+                 "bytes and compares the word with the exact decimal expansion of the double (tolerance 1/2 unit + ulp).",
+                 "5 C08", "Trusted: Decimal(x) as the exact expansion of a double; Format.tla's digit-sequence arithmetic; TLC.")
+
 NOT_YET = {}
 
 
